@@ -88,30 +88,60 @@ def offset_loop(f, facts):
             continue
         it = eb.operand(t['args'][0])
         maps = [x for x in subexprs(it) if x[0] == 'call' and x[1] == 'std::iter::Iterator::map' and len(x[2]) == 2]
-        if len(maps) != 1:
-            continue
-        rng, clo = maps[0][2]
+        plain = None
+        if len(maps) == 1:
+            rng, clo = maps[0][2]
+        else:
+            rngs = [x for x in subexprs(it) if x[0] == 'agg' and x[1].endswith('Range::Range') and len(x[3]) == 2]
+            if len(rngs) != 1 or maps:
+                continue
+            rng, clo = rngs[0], None
         if not (rng[0] == 'agg' and rng[1].endswith('Range::Range') and len(rng[3]) == 2 and rng[3][0][0] == 'const' and rng[3][0][1] == 0):
             continue
         d = rng[3][1]
         if not (d[0] == 'call' and d[1] == 'core::num::<impl u32>::wrapping_sub' and is_tail(d[2][0]) and is_head(d[2][1])):
             continue
-        if not (clo[0] == 'agg' and clo[1] == 'closure' and len(clo[3]) == 1 and is_head(clo[3][0])):
-            continue
-        # the closure: captured head (+) offset, wrapping
-        cg = None
-        for l2, s2 in f.assigns():
-            if s2['rv']['k'] == 'agg' and s2['rv'].get('ak') == 'closure':
-                cand = facts.fn_opt(s2['rv'].get('closure') or '')
-                if cand is not None:
-                    ce = ExprBuilder(cand)
-                    rets = [ce.call(t2) for _, t2 in cand.calls() if not t2['dest']['p'] and t2['dest']['l'] == 0]
-                    if len(rets) == 1 and rets[0][1] == 'core::num::<impl u32>::wrapping_add':
-                        a, b = rets[0][2]
-                        up = lambda x: x[0] == 'proj' and x[1][0] == 'arg' and x[1][1] == 1
-                        par = lambda x: x[0] == 'arg' and x[1] == 2
-                        if (up(a) and par(b)) or (up(b) and par(a)):
-                            cg = cand
+        if clo is None:
+            # `for offset in 0..distance { let head = start.wrapping_add(offset); .. }`: the position is computed in the body
+            offs = set()
+            for l2, s2 in f.assigns():
+                rv = s2['rv']
+                if rv['k'] == 'use' and 'l' in rv['op'] and rv['op']['l'] == t['dest']['l'] and rv['op']['p'] and not s2['lhs']['p']:
+                    offs.add(s2['lhs']['l'])
+            grow = True
+            while grow:
+                grow = False
+                for l2, s2 in f.assigns():
+                    rv = s2['rv']
+                    if rv['k'] == 'use' and 'l' in rv['op'] and not rv['op']['p'] and rv['op']['l'] in offs and not s2['lhs']['p'] and s2['lhs']['l'] not in offs:
+                        offs.add(s2['lhs']['l'])
+                        grow = True
+            plain = set()
+            for l2, t2 in f.calls():
+                if (t2.get('callee') or '') == 'core::num::<impl u32>::wrapping_add' and len(t2['args']) == 2 and not t2['dest']['p']:
+                    a_, b_ = t2['args']
+                    if 'l' in a_ and not a_['p'] and 'l' in b_ and not b_['p'] and ((a_['l'] in heads and b_['l'] in offs) or (b_['l'] in heads and a_['l'] in offs)):
+                        plain.add(t2['dest']['l'])
+            if not plain:
+                continue
+            cg = True
+        else:
+            if not (clo[0] == 'agg' and clo[1] == 'closure' and len(clo[3]) == 1 and is_head(clo[3][0])):
+                continue
+            # the closure: captured head (+) offset, wrapping
+            cg = None
+            for l2, s2 in f.assigns():
+                if s2['rv']['k'] == 'agg' and s2['rv'].get('ak') == 'closure':
+                    cand = facts.fn_opt(s2['rv'].get('closure') or '')
+                    if cand is not None:
+                        ce = ExprBuilder(cand)
+                        rets = [ce.call(t2) for _, t2 in cand.calls() if not t2['dest']['p'] and t2['dest']['l'] == 0]
+                        if len(rets) == 1 and rets[0][1] == 'core::num::<impl u32>::wrapping_add':
+                            a, b = rets[0][2]
+                            up = lambda x: x[0] == 'proj' and x[1][0] == 'arg' and x[1][1] == 1
+                            par = lambda x: x[0] == 'arg' and x[1] == 2
+                            if (up(a) and par(b)) or (up(b) and par(a)):
+                                cg = cand
         if cg is None:
             continue
         some = None
@@ -120,10 +150,10 @@ def offset_loop(f, facts):
                 some = f.variant_edge(si, 'Some')
         if some is None:
             continue
-        var = set()
+        var = set(plain or ())
         for l2, s2 in f.assigns():
             rv = s2['rv']
-            if rv['k'] == 'use' and 'l' in rv['op'] and rv['op']['l'] == t['dest']['l'] and rv['op']['p'] and not s2['lhs']['p']:
+            if plain is None and rv['k'] == 'use' and 'l' in rv['op'] and rv['op']['l'] == t['dest']['l'] and rv['op']['p'] and not s2['lhs']['p']:
                 var.add(s2['lhs']['l'])
         changed = True
         while changed:
@@ -133,7 +163,7 @@ def offset_loop(f, facts):
                 if rv['k'] == 'use' and 'l' in rv['op'] and not rv['op']['p'] and rv['op']['l'] in var and not s2['lhs']['p'] and s2['lhs']['l'] not in var:
                     var.add(s2['lhs']['l'])
                     changed = True
-        return {'next': loc, 'var': var, 'some': some}
+        return {'next': loc, 'var': var, 'some': some, 'dist': d}
     return None
 
 
@@ -162,7 +192,29 @@ def r2_publish_last(r, facts):
     res = fam.ctr_analysis(f)
     v = st['args'][1]
     tags = res.tags.get(v['l'], set()) if 'l' in v else set()
-    ok_v = 'ctr:entries_head' in tags
+    ok_v = False
+    if 'ctr:entries_head' in tags:
+        # derived from the head is not enough (`start + (available - 1)` is): the value is the loop counter itself, or
+        # the start plus the whole distance an offset loop walked
+        le = ExprBuilder(f, multi='leaf').operand(v)
+        while le[0] == 'cast':
+            le = le[4]
+        if le[0] == 'local' and 'ctr:entries_head' in res.tags.get(le[1], set()) and len(f.defs.get(le[1], [])) > 1:
+            ok_v = True
+        else:
+            pe = ExprBuilder(f).operand(v)
+            ol = offset_loop(f, facts)
+            parts = None
+            if pe[0] == 'call' and pe[1] == 'core::num::<impl u32>::wrapping_add' and len(pe[2]) == 2:
+                parts = pe[2]
+            elif pe[0] == 'bin' and pe[1] in ('Add', 'AddUnchecked', 'AddWithOverflow'):
+                parts = (pe[2], pe[3])
+            if ol is not None and parts is not None and f.forward_paths_hit([Loc(ol['some'][1], 0)], [st_loc], blockers=[ol['next']]) is None:
+                is_h = lambda y: (y[0] == 'call' and y[1] == fam.LOAD_KERNEL_SHARED and fam.last_field(y[2][0]) == 'entries_head')
+                is_d = lambda y: y == ol.get('dist')
+                if (is_h(parts[0]) and is_d(parts[1])) or (is_h(parts[1]) and is_d(parts[0])):
+                    ok_v = True
+                    r.inst('publishes start (+) distance after a complete offset loop', f.where(st_loc))
     if not ok_v and 'ctr:entries_tail' in tags:
         # publishing the tail that was read is the same value when the loop visited every position from head to that tail:
         # an offset loop over 0..tail-head that can only be left when it is exhausted
@@ -170,7 +222,7 @@ def r2_publish_last(r, facts):
         if ol is not None and f.forward_paths_hit([Loc(ol['some'][1], 0)], [st_loc], blockers=[ol['next']]) is None:
             ok_v = True
             r.inst('publishes the tail after a complete offset loop head..tail', f.where(st_loc))
-    r.require(ok_v, 'Completions::poll/publish-value', 'value stored to entries_head is not derived from the head counter', f.where(st_loc))
+    r.require(ok_v, 'Completions::poll/publish-value', 'value stored to entries_head is not the advanced head counter (the loop counter itself, the tail a complete loop reached, or start (+) the whole distance)', f.where(st_loc))
     r.floor(3)
 
 
@@ -238,6 +290,13 @@ def r3_once_per_slot(r, facts):
                 if x[0] == 'proj' and tuple(x[2]) == ('@Some', '.0') and x[1][0] == 'call' and x[1][1] == 'std::iter::Iterator::next' \
                         and offset_loop(f, facts) is not None and _len_minus_1(m, 'entries_len'):
                     ok = True
+                # ... or computed in the body: head0 (+) offset
+                if x[0] == 'call' and x[1] == 'core::num::<impl u32>::wrapping_add' and len(x[2]) == 2 and offset_loop(f, facts) is not None and _len_minus_1(m, 'entries_len'):
+                    is_off = lambda y: y[0] == 'proj' and tuple(y[2]) == ('@Some', '.0') and y[1][0] == 'call' and y[1][1] == 'std::iter::Iterator::next'
+                    is_h0 = lambda y: (y[0] == 'call' and y[1] == fam.LOAD_KERNEL_SHARED and fam.last_field(y[2][0]) == 'entries_head') or (y[0] == 'local' and y[1] in head_all0)
+                    head_all0 = {l for l, ts in res.tags.items() if 'ctr:entries_head' in ts}
+                    if (is_off(x[2][0]) and is_h0(x[2][1])) or (is_off(x[2][1]) and is_h0(x[2][0])):
+                        ok = True
         elif e[0] == 'bin' and e[1] == 'Rem':
             ok = e[2][0] == 'local' and e[2][1] in head_locals and fam.last_field(e[3]) == 'entries_len'
         r.inst('index = %s' % (e,), f.where(loc))
